@@ -39,7 +39,9 @@ CHECKS = {
  "C18": ("exploration", "reference substitution on the independently read base document compared with the independently read rendered document: per-paragraph text, per-character run formatting of literal characters, w:pPr, break runs, body sequence, w:sectPr, loop table rows, header/footer text, pictures, untouched parts", "4/C18",
          "Held on generated base documents with placeholders cut at forced positions across 1-4 formatted runs in body, cells, nested tables, headers and footers (incl. packages with split header placeholders that are opened first), loop tables, image placeholders and hostile values."),
  "C03": ("exploration", "round-trip differential: public in-memory model before save vs after Open, canonical main part of the first save vs the save after reopening (structured diff keyed by element path), and stability over further open/save cycles", "3.2, 4/C03",
-         "Held on API-built documents from the operation-script generator with a covering part in which each of 16 operation families dominates; differences are reported per element path, three recorded reader losses (TOC content control, formulas) are listed as known findings."),
+         "Held on API-built documents from the operation-script generator with a covering part in which each of 16 operation families dominates; differences are reported per element path."),
+ "C04": ("exploration", "differential over harness-written foreign packages: parts byte-compared, content types and relationships compared semantically, run text ledger of the generator compared with the independently extracted text of the saved main part", "4/C04",
+         "Held on generated foreign packages (arbitrary prefixes, wrappers around runs, extra parts with own relationships, media of any name) opened and saved with and without append-only edits."),
 }
 PENDING = {}
 ALL = ["C%02d" % i for i in range(1, 21)]
